@@ -1,6 +1,6 @@
 from contextlib import suppress
 import re
-from typing import Iterable, NamedTuple
+from typing import Iterable, NamedTuple, Optional
 
 from .color import Color
 from .style import Style
@@ -14,8 +14,8 @@ class _AnsiToken(NamedTuple):
     """Result of ansi tokenized string."""
 
     plain: str = ""
-    sgr: str = ""
-    osc: str = ""
+    sgr: Optional[str] = None
+    osc: Optional[str] = None
 
 
 def _ansi_tokenize(ansi_text: str) -> Iterable[_AnsiToken]:
@@ -147,15 +147,16 @@ class AnsiDecoder:
                     _params, semicolon, link = osc[2:].partition(";")
                     if semicolon:
                         self.style = self.style.update_link(link or None)
-            elif sgr:
+            elif sgr is not None:
                 # Translate in to semi-colon separated codes
                 # Ignore invalid codes, because we want to be lenient
+                # An omitted code is 0, so that ESC[m is a reset
                 # Four significant digits are enough to tell a code is out of range
                 # (int() refuses digit strings longer than sys.int_max_str_digits)
                 codes = [
                     min(255, int(_code.lstrip("0")[:4] or "0"))
                     for _code in sgr.split(";")
-                    if _code.isdecimal()
+                    if _code.isdecimal() or not _code
                 ]
                 iter_codes = iter(codes)
                 for code in iter_codes:
